@@ -620,12 +620,15 @@ macro_rules! perp_world {
                     }
                     if self.left == 0 { return None; }
                     self.left -= 1;
-                    if !self.roundtrip && r.chance(1, 4) { self.px = (self.px as i64 + r.below(21) as i64 - 10).max(2) as u64; }
+                    if r.chance(1, 4) { self.px = (self.px as i64 + r.below(21) as i64 - 10).max(2) as u64; }
                     let pr = self.price_str(r);
                     let open: Vec<(u64, &P)> = s.ps.iter().filter(|(_, p)| p.size_in_usd != 0 || p.collateral_token_amount != 0).map(|(k, p)| (*k, p)).collect();
                     let pick = r.below(10);
-                    if self.roundtrip {
-                        // open a fresh position and close it at once at unchanged prices (C10)
+                    if self.roundtrip && (r.chance(1, 2) || self.left == 0) {
+                        // open a fresh position and close it at once at unchanged prices, no time in between (C10); the other
+                        // half of the operations of a round-trip history is the ordinary mix below, so that the pairs run on
+                        // market states reached by real histories: other positions open on both sides and both collateral
+                        // tokens, clock advanced, funding / borrowing / impact distribution updated, deposits and withdrawals
                         let pid = self.next_pid; self.next_pid += 1;
                         let (il, cl) = (r.chance(1, 2), r.chance(1, 2));
                         let size = (*r.pick(&[1_000_000_000u64, 20_000_000_000, 500_000_000_000, 5_000_000_000_000]) + r.below(1_000_000_000)) as $U * SCALE;
@@ -689,7 +692,7 @@ macro_rules! perp_world {
                             self.pending = vec![format!("perp dec {sid} {pid} {} 0 1 1 0 {pr}", p.size_in_usd)];
                             Some(format!("perp chk {sid} {pid} 1 1 {pr}"))
                         }
-                        7 if !self.roundtrip => {
+                        7 => {
                             // liquidity operations with open interest: pool value, deposit, withdrawal
                             let supply = s.m.total_supply;
                             let kind = r.below(5); let mx = r.below(2);
@@ -788,7 +791,7 @@ pub fn run_bin(prop: &str) {
     let mut after_inc: Option<(String, String, String)> = None; // (sid, pid, prices)
     let mut after_dec: Option<(String, String, String)> = None;
     let mut last_chk_liq: HashMap<(String, String, String), String> = HashMap::new();
-    let mut last_inc: HashMap<(String, String), (String, BigInt)> = HashMap::new(); // (sid,pid) -> (prices, collateral in)
+    let mut last_inc: HashMap<(String, String), (String, BigInt, BigInt)> = HashMap::new(); // (sid,pid) -> (prices, collateral in, claimable funding value credited by the increase)
     loop {
         let req: String = if cli.mode == "replay" { if fi >= file_reqs.len() { break; } fi += 1; file_reqs[fi - 1].clone() } else {
             if produced >= cli.n && gen.is_none() { break; }
@@ -817,6 +820,15 @@ pub fn run_bin(prop: &str) {
         // C09: health of the position before a liquidation order, by the independent computation
         let pre_liq: Option<&'static str> = if prop == "C09" && op == "dec" && t.len() == 15 && t[7] == "1" {
             health_any(&db64, &db128, &track, is64, &sid, t[3], &t[9..], true, true) } else { None };
+        // C10: was the position empty, is there other open interest, has claimable funding accrued in this market
+        let (empty_before, oi_other, funding_hist) = {
+            let pid = t.get(3).and_then(|x| x.parse::<u64>().ok());
+            macro_rules! look { ($db:expr) => { match $db.get(&sid) { Some(s) => (
+                pid.and_then(|k| s.ps.get(&k)).map(|p| p.size_in_usd == 0 && p.size_in_tokens == 0 && p.collateral_token_amount == 0).unwrap_or(false),
+                s.ps.iter().any(|(k, p)| Some(*k) != pid && p.size_in_usd != 0),
+                { let c = &s.m.claimable_funding_amount_per_size; c.0.long_amount != 0 || c.0.short_amount != 0 || c.1.long_amount != 0 || c.1.short_amount != 0 }), None => (false, false, false) } } }
+            if is64 { look!(db64) } else { look!(db128) }
+        };
         let resp = match std::panic::catch_unwind(std::panic::AssertUnwindSafe(|| if is64 { w64::exec(&mut db64, &t[1..]) } else { w128::exec(&mut db128, &t[1..]) })) {
             Ok(Some(x)) => x, Ok(None) => "bad-op".into(), Err(_) => "panic".into() };
         if resp == "panic" { out.oracle_fail("panicked", &req); }
@@ -985,18 +997,31 @@ pub fn run_bin(prop: &str) {
                 }
             }
             // ---------------- C10: open + immediate full close at unchanged prices
+            // a pair = a successful increase of an EMPTY position immediately followed (next request of the session) by its
+            // full close at the same prices; received value = outputs + claimable collateral + claimable FUNDING amounts
+            // credited by either report
             if prop == "C10" {
+                let key = (sid.clone(), t.get(3).map(|x| x.to_string()).unwrap_or_default());
+                let p6 = |from: usize| -> Vec<BigInt> { t[from..].iter().map(|x| bi(x)).collect() };
                 match op {
-                    "inc" if ok => { last_inc.insert((sid.clone(), t[3].to_string()), (t[6..].join(" "), bi(t[4]))); if last_inc.len() > 4096 { last_inc.clear(); } }
+                    "inc" if ok && pos_before.as_ref().map(|x| x.2 == BigInt::from(0)).unwrap_or(false) && empty_before => {
+                        let p = p6(6);
+                        let claimed = bi(rt[12]) * &p[2] + bi(rt[13]) * &p[4];
+                        last_inc.clear();
+                        last_inc.insert(key, (t[6..].join(" "), bi(t[4]), claimed));
+                    }
                     "dec" if ok => {
-                        if let Some((pr, cin)) = last_inc.remove(&(sid.clone(), t[3].to_string())) {
+                        if let Some((pr, cin, claimed_inc)) = last_inc.remove(&key) {
                             if pr == t[9..].join(" ") && rt[8] == "1" {
                                 out.stat("roundtrip.pairs");
                                 let (il, cl, _) = pos_before.clone().unwrap();
-                                let p: Vec<BigInt> = t[9..].iter().map(|x| bi(x)).collect();
+                                out.stat(&format!("roundtrip.side_long{}_coll_long{}", il as u8, cl as u8));
+                                let p = p6(9);
                                 // prices: index(min,max) long(min,max) short(min,max)
                                 let (pc, pp) = (if cl { &p[2] } else { &p[4] }, if il { &p[2] } else { &p[4] });
-                                let received = (bi(rt[9]) + bi(rt[13])) * pc + (bi(rt[10]) + bi(rt[14])) * pp;
+                                let funding_claim = &claimed_inc + bi(rt[23]) * &p[2] + bi(rt[24]) * &p[4];
+                                if funding_claim != BigInt::from(0) { out.stat("roundtrip.funding_claimable_credited"); }
+                                let received = (bi(rt[9]) + bi(rt[13])) * pc + (bi(rt[10]) + bi(rt[14])) * pp + &funding_claim;
                                 let deposited = &cin * pc;
                                 let slack = BigInt::from(2) * if pc > pp { pc.clone() } else { pp.clone() };
                                 if received > &deposited + &slack {
@@ -1004,17 +1029,20 @@ pub fn run_bin(prop: &str) {
                                     let cfg = track.get(&sid).map(|x| x.cfg.clone()).unwrap_or_default();
                                     let caps_inverted = cfg.len() > 35 && bi(&cfg[34]) > bi(&cfg[35]);
                                     let refunded = bi(rt[13]) * pc + bi(rt[14]) * pp;
-                                    if caps_inverted && bi(rt[4]) > BigInt::from(0) && &received - &deposited <= &refunded + &slack {
+                                    if caps_inverted && funding_claim == BigInt::from(0) && bi(rt[4]) > BigInt::from(0) && &received - &deposited <= &refunded + &slack {
                                         out.known("F-C10", "round trip profitable: max positive position impact factor exceeds the max negative one and the negative impact above the cap is refunded as claimable collateral", &req);
                                         out.stat("roundtrip.profit_caps_inverted");
-                                    } else { out.oracle_fail(&format!("opening and immediately closing returned value {received} for a deposit worth {deposited}"), &req); }
+                                    } else { out.oracle_fail(&format!("opening and immediately closing returned value {received} (of which claimable funding {funding_claim}) for a deposit worth {deposited}"), &req); }
                                 }
                                 if received > deposited { out.stat("roundtrip.within_slack"); } else if received < deposited { out.stat("roundtrip.loss"); }
                                 if bi(rt[3]) > BigInt::from(0) { out.stat("roundtrip.close_positive_impact"); }
+                                if oi_other { out.stat("roundtrip.with_other_open_interest"); }
+                                if funding_hist { out.stat("roundtrip.after_funding_history"); }
                             }
                         }
                     }
-                    _ => {}
+                    // any other request of the session ends a pending pair
+                    _ => { last_inc.retain(|k, _| k.0 != sid); }
                 }
             }
         }
